@@ -232,7 +232,7 @@ impl TextSelection {
     /// Returns the begin cursor of this text selection in another. Returns None if they are not embedded.
     /// **Note:** this does *NOT* check whether the textselections pertain to the same resource, that is up to the caller.
     pub fn relative_begin(&self, container: &TextSelection) -> Option<usize> {
-        if self.begin() >= container.begin() {
+        if self.begin() >= container.begin() && self.end() <= container.end() {
             Some(self.begin() - container.begin())
         } else {
             None
@@ -242,7 +242,8 @@ impl TextSelection {
     /// Returns the end cursor (begin-aligned) of this text selection in another. Returns None if they are not embedded.
     /// **Note:** this does *NOT* check whether the textselections pertain to the same resource, that is up to the caller.
     pub fn relative_end(&self, container: &TextSelection) -> Option<usize> {
-        if self.end() <= container.end() {
+        //(embedded: also not before the container, where the subtraction would underflow)
+        if self.begin() >= container.begin() && self.end() <= container.end() {
             Some(self.end() - container.begin())
         } else {
             None
@@ -252,7 +253,7 @@ impl TextSelection {
     /// Returns the begin cursor of this text selection in another, as an end aligned cursor. Returns None if they are not embedded.
     /// **Note:** this does *NOT* check whether the textselections pertain to the same resource, that is up to the caller.
     fn relative_begin_endaligned(&self, container: &TextSelection) -> Option<isize> {
-        if self.begin() >= container.begin() {
+        if self.begin() >= container.begin() && self.end() <= container.end() {
             let beginaligned = self.begin() - container.begin();
             let containerlen = container.end() as isize - container.begin() as isize;
             Some(beginaligned as isize - containerlen)
@@ -264,7 +265,7 @@ impl TextSelection {
     /// Returns the begin cursor of this text selection in another, as an end aligned cursor. Returns None if they are not embedded.
     /// **Note:** this does *NOT* check whether the textselections pertain to the same resource, that is up to the caller.
     fn relative_end_endaligned(&self, container: &TextSelection) -> Option<isize> {
-        if self.end() <= container.end() {
+        if self.begin() >= container.begin() && self.end() <= container.end() {
             let beginaligned = self.end() - container.begin();
             let containerlen = container.end() as isize - container.begin() as isize;
             Some(beginaligned as isize - containerlen)
@@ -384,6 +385,15 @@ impl TextSelection {
                     }
                 },
         );
+        if let (Cursor::BeginAligned(b), Cursor::BeginAligned(e)) = (begin, end) {
+            if e < b {
+                return Err(StamError::InvalidOffset(
+                    offset.begin,
+                    offset.end,
+                    "(absolute_offset) end must be greater than or equal to begin",
+                ));
+            }
+        }
         Ok(Offset::new(begin, end))
     }
 
